@@ -71,6 +71,11 @@ def rule_template(chk):
     chk.decide(assigns.get('dt') == 'self.dt' and assigns.get('t') == 'self.t', 'stage-wrapper', 'dt-and-t-from-integrator-state', node=w,
                file=TPL, func='stage wrapper', detail_bad='stage sees dt=%s, t=%s' % (assigns.get('dt'), assigns.get('t')),
                detail_ok='dt = self.dt, t = self.t')
+    # the wrapper handles every destination in turn: nothing in it may leave early (a return / break on behalf of one destination skips the hooks and loops of all later ones)
+    exits = [x for x in ast.walk(w) if isinstance(x, (ast.Return, ast.Break)) and x is not w.body[-1]]
+    chk.decide(not exits, 'stage-wrapper', 'no-early-exit', node=exits[0] if exits else w, file=TPL, func='stage wrapper',
+               detail_bad='the stage wrapper contains `%s`: it runs the stages of all destinations in sequence, so leaving it for one destination (e.g. an empty array) also skips every '
+                          'destination that sorts after it' % (U(exits[0]) if exits else ''), detail_ok='straight through all destinations')
     g = C.build_cfg(w)
     # destination binding
     dsts = [n for n in g.nodes if n.ast is not None and isinstance(n.ast, ast.Assign) and U(n.ast.targets[0]) == 'dst']
@@ -156,30 +161,48 @@ def rule_template(chk):
     ots = meths.get('one_timestep')
     if not (st and dps and ots):
         raise AnalysisError('step/do_post_stage/one_timestep vanished from the template')
-    g2 = C.build_cfg(st)
-    asg = [(n.id, U(n.ast.targets[0]), U(n.ast.value)) for n in g2.nodes if n.ast is not None and isinstance(n.ast, ast.Assign)]
-    want = {'self.orig_t': 't', 'self.t': 't', 'self.dt': 'dt'}
-    callsn = [n.id for n in g2.nodes if n.ast is not None and isinstance(n.ast, ast.Expr) and M.call_name(n.ast.value) == 'self.one_timestep']
-    ok = dict((a, b) for _, a, b in asg) == want and len(callsn) == 1 and all(g2.dominates(i, callsn[0]) for i, _, _ in asg)
-    ok = ok and [U(a) for a in g2.nodes[callsn[0]].ast.value.args] == ['t', 'dt'] if callsn else False
+    # decided per path, with local aliases substituted (paths engine): what is stored where and what is called with what, not how it is spelled
+    from verif_static import paths as PT, norm as N
+    sp = PT.enumerate_paths(M.docstring_stripped(st.body))
+    ok = len(sp) == 1
+    why = '%d paths' % len(sp)
+    if ok:
+        p_ = sp[0]
+        sto = dict((tg, (i, v)) for i, tg, v in PT.stores_on(p_))
+        cl = [(i, c) for i, c, cal, env in PT.calls_on(p_) if cal == 'self.one_timestep']
+        ok = len(cl) == 1 and all(k in sto for k in ('self.orig_t', 'self.t', 'self.dt')) and compact(sto['self.orig_t'][1]) == 't' and compact(sto['self.t'][1]) == 't' and \
+            compact(sto['self.dt'][1]) == 'dt' and all(sto[k][0] < cl[0][0] for k in ('self.orig_t', 'self.t', 'self.dt')) and [compact(PT.resolve(a_, p_[cl[0][0]].env)) for a_ in cl[0][1].args] == ['t', 'dt']
+        why = str(dict((k, U(v[1])) for k, v in sto.items()))
     chk.decide(ok, 'step-bookkeeping', 'step', node=st, file=TPL, func='Integrator.step',
-               detail_bad='step does not store orig_t, t, dt and then call one_timestep(t, dt): %s' % asg, detail_ok='orig_t, t, dt stored first')
-    g3 = C.build_cfg(dps)
-    tset = [n.id for n in g3.nodes if n.ast is not None and isinstance(n.ast, ast.Assign) and U(n.ast.targets[0]) == 'self.t']
-    cb = [n for n in g3.nodes if n.ast is not None and isinstance(n.ast, ast.Expr) and M.call_name(n.ast.value) == 'self._post_stage_callback']
-    ok = len(tset) == 1 and compact(g3.nodes[tset[0]].ast.value) in ('self.orig_t+stage_dt', 'stage_dt+self.orig_t')
-    chk.decide(ok, 'step-bookkeeping', 'stage-time', node=dps, file=TPL, func='Integrator.do_post_stage',
-               detail_bad='stage time is not orig_t + stage_dt', detail_ok='self.t = self.orig_t + stage_dt')
-    ok = len(cb) == 1 and bool(tset) and g3.dominates(tset[0], cb[0].id) and \
-        [U(a) for a in cb[0].ast.value.args] == ['self.t', 'self.dt', 'stage']
-    chk.decide(ok, 'step-bookkeeping', 'callback-after-time-update', node=cb[0].ast if cb else dps, file=TPL, func='Integrator.do_post_stage',
-               detail_bad='post-stage callback is not invoked exactly once with (self.t, self.dt, stage) after the time update',
+               detail_bad='step does not store orig_t = t, t = t, dt = dt and then call one_timestep(t, dt): %s' % why, detail_ok='orig_t, t, dt stored first')
+    dp = PT.enumerate_paths(M.docstring_stripped(dps.body))
+    bad_t = bad_cb = bad_guard = None
+    ncb = 0
+    for p_ in dp:
+        sto = [(i, v) for i, tg, v in PT.stores_on(p_) if tg == 'self.t']
+        if len(sto) != 1 or not N.same(sto[0][1], 'self.orig_t + stage_dt'):
+            bad_t = bad_t or [U(v) for i, v in sto]
+        cbs = [(i, c, env) for i, c, cal, env in PT.calls_on(p_) if cal == 'self._post_stage_callback']
+        is_set = any(e.kind == 'cond' and compact(PT.resolve(e.node, e.env)) in ('self._post_stage_callbackisnotNone',) and e.truth for e in p_) or \
+            any(e.kind == 'cond' and compact(PT.resolve(e.node, e.env)) in ('self._post_stage_callbackisNone',) and not e.truth for e in p_)
+        if is_set:
+            ncb += 1
+            if len(cbs) != 1 or not sto or cbs[0][0] < sto[0][0]:
+                bad_cb = bad_cb or 'called %d times / before the time update' % len(cbs)
+            else:
+                i, c, env = cbs[0]
+                args = [PT.resolve(a_, env) for a_ in c.args]
+                if not (len(args) == 3 and (N.same(args[0], 'self.orig_t + stage_dt') or compact(args[0]) == 'self.t') and compact(args[1]) == 'self.dt' and compact(args[2]) == 'stage'):
+                    bad_cb = bad_cb or 'called with (%s)' % ', '.join(U(a_) for a_ in args)
+        elif cbs:
+            bad_guard = 'the callback is called on a path on which it was not tested to be set'
+    chk.decide(bad_t is None and bool(dp), 'step-bookkeeping', 'stage-time', node=dps, file=TPL, func='Integrator.do_post_stage',
+               detail_bad='stage time is not orig_t + stage_dt on every path (self.t = %s)' % bad_t, detail_ok='self.t = self.orig_t + stage_dt')
+    chk.decide(bad_cb is None and ncb >= 1, 'step-bookkeeping', 'callback-after-time-update', node=dps, file=TPL, func='Integrator.do_post_stage',
+               detail_bad='post-stage callback is not invoked exactly once with (stage time, self.dt, stage) after the time update: %s' % bad_cb,
                detail_ok='callback(self.t, self.dt, stage) after self.t is set')
-    if cb:
-        gi = M.enclosing(cb[0].ast, (ast.If,))
-        chk.decide(gi is not None and compact(gi.test) == 'self._post_stage_callbackisnotNone' and M.enclosing(cb[0].ast, (ast.For, ast.While)) is None,
-                   'step-bookkeeping', 'callback-only-when-set', node=cb[0].ast, file=TPL, func='Integrator.do_post_stage',
-                   detail_bad='callback guard/loop changed', detail_ok='once, only when set')
+    chk.decide(bad_guard is None and not any(isinstance(x, (ast.For, ast.While)) for x in ast.walk(dps)), 'step-bookkeeping', 'callback-only-when-set', node=dps, file=TPL,
+               func='Integrator.do_post_stage', detail_bad=bad_guard or 'callback guard/loop changed', detail_ok='once, only when set')
     got = ph_expr(table, ots.body[0]) if ots.body else None
     ok = got is not None and any(M.call_name(c) == 'helper.get_timestep_code' for c in M.calls(got[1])) and len(ots.body) == 1
     chk.decide(ok, 'timestep-pasted-verbatim', 'template', node=ots, file=TPL, func='Integrator.one_timestep',
@@ -245,6 +268,27 @@ def rule_helper(chk):
                               'integrator at hand, not from anything remembered from an earlier one' % text2, detail_ok='second model integrator of the same name gets its own body')
     except (AI.Unsupported, AI.Raised) as e:
         chk.undecided('timestep-pasted-verbatim', 'helper', node=tc, file=IH, func='get_timestep_code', detail='generator not interpretable on the model integrator: %s' % e)
+    # a stage method a stepper class *inherits* is compiled and must be looped over like one it defines: has_stepper_loop is asked on a helper built by its own
+    # constructor (so that any table it precomputes exists) for a stepper whose class defines nothing itself while the instance has stage1 / initialize
+    hl = M.find_func(cls, 'has_stepper_loop')
+    try:
+        it_h = EM.interpreter()
+        base_m = EM.func("def stage1(self, d_idx, d_x, dt): pass")
+        init_m = EM.func("def initialize(self, d_idx, d_x): pass")
+        derived = EM.mock(__class__=EM.mock(__name__='DerivedStep'), stage1=base_m, initialize=init_m)        # class object with no methods of its own
+        own = EM.mock(__class__=EM.mock(__name__='OwnStep', stage1=base_m), stage1=base_m)
+        integ = EM.mock(steppers={'outlet': derived, 'fluid': own})
+        aeh = EM.mock(object=EM.mock(particle_arrays=[EM.mock(name='outlet'), EM.mock(name='fluid')]))
+        hh = EM.instance(it_h, IH, 'IntegratorCythonHelper')
+        EM.call(it_h, hh, '__init__', integ, aeh)
+        got = [(d_, m_, EM.call(it_h, hh, 'has_stepper_loop', d_, m_)) for d_ in ('outlet', 'fluid') for m_ in ('initialize', 'stage1', 'stage2')]
+        want_h = [('outlet', 'initialize', True), ('outlet', 'stage1', True), ('outlet', 'stage2', False), ('fluid', 'initialize', False), ('fluid', 'stage1', True), ('fluid', 'stage2', False)]
+        chk.decide([(a_, b_, bool(c_)) for a_, b_, c_ in got] == want_h, 'stage-wrapper', 'loop-for-inherited-stage-methods', node=hl, file=IH, func='has_stepper_loop',
+                   detail_bad='for a stepper that inherits initialize / stage1 (class defines nothing itself) and one that defines stage1, has_stepper_loop answers %s; expected %s: '
+                              'an inherited stage method would get a wrapper without a particle loop (a silent no-op for that array)' % (got, want_h),
+                   detail_ok='a method the stepper has - defined or inherited - gets its loop')
+    except (AI.Unsupported, AI.Raised) as e:
+        chk.undecided('stage-wrapper', 'loop-for-inherited-stage-methods', node=hl, file=IH, func='has_stepper_loop', detail='not interpretable on the model: %s' % e)
     # what the generators emit for a generic integrator with two destinations whose steppers differ
     sl = M.find_func(cls, 'get_stepper_loop')
     it = EM.interpreter()
@@ -389,39 +433,46 @@ def rule_integrators(chk):
 
 
 def rule_accel(chk):
+    from verif_static import paths as PT
     t = M.py(INT)
-    fn = M.find_method(t, 'Integrator', 'compute_accelerations')
-    g = C.build_cfg(fn)
-    comp = [n.id for n in g.nodes if n.ast is not None and isinstance(n.ast, ast.Expr) and M.call_name(n.ast.value) == 'a_eval.compute']
-    upd = [n.id for n in g.nodes if n.ast is not None and isinstance(n.ast, ast.Expr) and M.call_name(n.ast.value) == 'self.nnps.update']
-    pmu = [n.id for n in g.nodes if n.ast is not None and isinstance(n.ast, ast.Expr) and M.call_name(n.ast.value) == 'self.parallel_manager.update']
-    if not comp or not upd:
-        chk.violated('accelerations-after-neighbour-refresh', 'calls', node=fn, file=INT, func='Integrator.compute_accelerations',
-                     detail='compute / nnps.update call vanished')
-        return
-    gi = M.enclosing(g.nodes[upd[0]].ast, (ast.If,))
-    while gi is not None and compact(gi.test) != 'update_nnps':
-        gi = M.enclosing(gi, (ast.If,))
-    ok = gi is not None and not gi.orelse and comp[0] in g.reachable(g.node_of(gi), avoid=upd)
-    chk.decide(ok, 'accelerations-after-neighbour-refresh', 'update-only-when-asked', node=fn, file=INT, func='Integrator.compute_accelerations',
-               detail_bad='nnps.update() is not exactly under `if update_nnps`', detail_ok='under if update_nnps')
-    # on the update branch, update precedes compute; nothing updates after compute
-    after = g.reachable(comp[0])
-    chk.decide(not (set(upd) | set(pmu)) & (after - {comp[0]}), 'accelerations-after-neighbour-refresh', 'no-update-after-compute', node=fn,
-               file=INT, func='Integrator.compute_accelerations', detail_bad='neighbours are refreshed after the evaluation', detail_ok='refresh precedes compute')
-    body_first = g.node_of(gi.body[0]) if gi is not None else None
-    ok = body_first is not None and g.must_pass(body_first, comp[0], upd)
-    chk.decide(ok, 'accelerations-after-neighbour-refresh', 'update-before-compute', node=fn, file=INT, func='Integrator.compute_accelerations',
-               detail_bad='with update_nnps the evaluation can run without nnps.update()', detail_ok='every path through the branch updates first')
-    if pmu:
-        chk.decide(g.dominates(pmu[0], upd[0]) or g.must_pass(pmu[0], comp[0], upd), 'accelerations-after-neighbour-refresh', 'parallel-manager-first',
-                   node=fn, file=INT, func='Integrator.compute_accelerations', detail_bad='parallel manager is updated after the neighbour structure',
-                   detail_ok='parallel_manager.update() before nnps.update()')
-    cc = g.nodes[comp[0]].ast.value
-    ae = [a for a in ast.walk(fn) if isinstance(a, ast.Assign) and U(a.targets[0]) == 'a_eval']
-    ok = [compact(a) for a in cc.args] == ['c_integrator.t', 'c_integrator.dt'] and bool(ae) and compact(ae[0].value) == 'self.acceleration_evals[index]'
-    chk.decide(ok, 'accelerations-after-neighbour-refresh', 'evaluates-set-index-at-stage-time', node=cc, file=INT, func='Integrator.compute_accelerations',
-               detail_bad='evaluation is %s on %s' % (U(cc), U(ae[0].value) if ae else None), detail_ok='acceleration_evals[index].compute(c.t, c.dt)')
+    icls_raw = M.find_class(t, 'Integrator')
+    icls = M.inlined_class(icls_raw, keep=set(n_ for n_ in M.methods(icls_raw) if not n_.startswith('_')))
+    fn = M.find_func(icls, 'compute_accelerations')
+    pths = PT.enumerate_paths(M.docstring_stripped(fn.body))
+    bad = {}
+    nup = 0
+    for p_ in pths:
+        cl = PT.calls_on(p_)
+        comp = [(i, c, env) for i, c, cal, env in cl if cal == 'self.acceleration_evals[index].compute']
+        upd = [i for i, c, cal, env in cl if cal == 'self.nnps.update']
+        pmu = [i for i, c, cal, env in cl if cal == 'self.parallel_manager.update']
+        if len(comp) != 1:
+            bad.setdefault('calls', 'a path evaluates acceleration_evals[index].compute %d times' % len(comp))
+            continue
+        ic, cc, env = comp[0]
+        asked = any(e.kind == 'cond' and compact(e.node) == 'update_nnps' and e.truth for e in p_)
+        refused = any(e.kind == 'cond' and compact(e.node) == 'update_nnps' and not e.truth for e in p_)
+        if asked:
+            nup += 1
+            if len(upd) != 1 or upd[0] > ic:
+                bad.setdefault('update-before-compute', 'with update_nnps the evaluation can run without (or before) nnps.update()')
+            if pmu and upd and max(pmu) > upd[0]:
+                bad.setdefault('parallel-manager-first', 'parallel manager is updated after the neighbour structure')
+        elif refused and (upd or pmu):
+            bad.setdefault('update-only-when-asked', 'nnps / parallel manager are updated although update_nnps is false')
+        elif not asked and not refused and (upd or pmu):
+            bad.setdefault('update-only-when-asked', 'nnps.update() is not under `if update_nnps`')
+        if [i for i in upd + pmu if i > ic]:
+            bad.setdefault('no-update-after-compute', 'neighbours are refreshed after the evaluation')
+        args = [compact(PT.resolve(a_, env)) for a_ in cc.args]
+        if args != ['self.c_integrator.t', 'self.c_integrator.dt']:
+            bad.setdefault('evaluates-set-index-at-stage-time', 'evaluation is called with (%s)' % ', '.join(args))
+    if not pths or nup == 0:
+        bad.setdefault('calls', 'compute / nnps.update call vanished')
+    for inst, ok_text in (('calls', 'one evaluation per path'), ('update-only-when-asked', 'under if update_nnps'), ('no-update-after-compute', 'refresh precedes compute'),
+                          ('update-before-compute', 'every path through the branch updates first'), ('parallel-manager-first', 'parallel_manager.update() before nnps.update()'),
+                          ('evaluates-set-index-at-stage-time', 'acceleration_evals[index].compute(c.t, c.dt)')):
+        chk.decide(inst not in bad, 'accelerations-after-neighbour-refresh', inst, node=fn, file=INT, func='Integrator.compute_accelerations', detail_bad=bad.get(inst, ''), detail_ok=ok_text)
     ud = M.find_method(t, 'Integrator', 'update_domain')
     chk.decide(any(M.call_name(c) == 'self.nnps.update_domain' for c in M.calls(ud)), 'compiled-api-forwards', 'Integrator.update_domain', node=ud,
                file=INT, func='Integrator.update_domain', detail_bad='update_domain does not re-create ghosts (nnps.update_domain)', detail_ok='nnps.update_domain()')
